@@ -16,6 +16,8 @@ import (
 	"path"
 	"sort"
 	"strings"
+	"sync"
+	"sync/atomic"
 	"syscall"
 	"testing"
 	"time"
@@ -49,12 +51,43 @@ func TestVerifDaemonChild(t *testing.T) {
 	}
 	out := os.NewFile(3, "verif-out")
 	vw := verifNewWorld(spec.DataDir)
+	// while the work types are being registered (the units found on disk are re-read one by one), clients already ask
+	// about units by ID: every unit that has a readable record on disk must be known at every moment
+	var onDisk []string
+	if ents, err := os.ReadDir(path.Join(spec.DataDir, "verif-node")); err == nil {
+		for _, e := range ents {
+			if cl, _ := crashReadDisk(path.Join(spec.DataDir, "verif-node", e.Name(), "status")); e.IsDir() && cl == "full" {
+				onDisk = append(onDisk, e.Name())
+			}
+		}
+	}
+	var queries, unknown int64
+	var stopPoll int32
+	var pollWG sync.WaitGroup
+	for g := 0; g < 3 && len(onDisk) > 0; g++ {
+		pollWG.Add(1)
+		go func() {
+			defer pollWG.Done()
+			for atomic.LoadInt32(&stopPoll) == 0 {
+				for _, id := range onDisk {
+					_, err := vw.w.UnitStatus(id)
+					atomic.AddInt64(&queries, 1)
+					if err != nil && strings.Contains(err.Error(), "unknown work unit") {
+						atomic.AddInt64(&unknown, 1)
+					}
+				}
+			}
+		}()
+	}
 	if err := vw.w.RegisterWorker("verifwork", verifNewUnit, false); err != nil {
 		t.Fatal(err)
 	}
 	if err := vw.w.RegisterWorker("cmd", CommandWorkerCfg{WorkType: "cmd", Command: "/bin/sh", AllowRuntimeParams: true}.NewWorker, false); err != nil {
 		t.Fatal(err)
 	}
+	atomic.StoreInt32(&stopPoll, 1)
+	pollWG.Wait()
+	fmt.Fprintf(out, "startup %d %d\n", queries, unknown)
 	fmt.Fprintln(out, "ready")
 	in := bufio.NewReader(os.Stdin)
 	for {
@@ -88,6 +121,7 @@ func TestVerifDaemonChild(t *testing.T) {
 }
 
 type crashDaemon struct {
+	startupQueries, startupUnknown int64 // by-ID queries answered while the work types were being registered, and how many said "unknown work unit"
 	next  int
 	cmd   *exec.Cmd
 	stdin *os.File
@@ -119,16 +153,23 @@ func crashStartDaemon(dir string, env []string) (*crashDaemon, error) {
 		outR.Close()
 	}()
 	go func() { _ = cmd.Wait() }()
-	select {
-	case l, ok := <-d.lines:
-		if !ok || l != "ready" {
-			return nil, fmt.Errorf("daemon said %q", l)
+	deadline := time.After(30 * time.Second)
+	for {
+		select {
+		case l, ok := <-d.lines:
+			if ok && strings.HasPrefix(l, "startup ") {
+				_, _ = fmt.Sscanf(l, "startup %d %d", &d.startupQueries, &d.startupUnknown)
+				continue
+			}
+			if !ok || l != "ready" {
+				return nil, fmt.Errorf("daemon said %q", l)
+			}
+			return d, nil
+		case <-deadline:
+			_ = cmd.Process.Kill()
+			return nil, fmt.Errorf("daemon did not start")
 		}
-	case <-time.After(30 * time.Second):
-		_ = cmd.Process.Kill()
-		return nil, fmt.Errorf("daemon did not start")
 	}
-	return d, nil
 }
 
 // do: one work command; ok=false when no reply came within d (the daemon died or the command blocks)
@@ -413,7 +454,7 @@ func crashApply(op string, raw json.RawMessage) interface{} {
 		}
 	}
 	sort.SliceStable(obs, func(i, j int) bool { return false })
-	return map[string]interface{}{"units": obs, "hit": hit, "nontrivial": true}
+	return map[string]interface{}{"units": obs, "hit": hit, "nontrivial": true, "startup_unknown": d3.startupUnknown}
 }
 
 func crashGen(v *verifRun) {
